@@ -265,6 +265,17 @@ class Builder:
             self.last = ['add', sub_log, m, group, self.state(c)]
             c.add(child, m, group)
             log.append(["add", sub_log, m, group])
+            if rng.random() < 0.12:
+                # the very same child object once more, at another legal position
+                nn2 = self.numbered(c)
+                if k <= nn2:
+                    m2 = int(rng.integers(0, nn2 - k + 1))
+                    g2 = bool(rng.random() < group_p)
+                    if self.on_add is not None:
+                        self.on_add(c, child, m2, g2)
+                    self.last = ['add_same_child_again', sub_log, m2, g2, self.state(c)]
+                    c.add(child, m2, g2)
+                    log.append(["add_same_child_again", m2, g2])
         if rng.random() < direct_heralds_p:
             self.add_heralds(c, log, int(rng.integers(1, 3)))
         return c
